@@ -2008,7 +2008,22 @@ func (query *Query) exec() (result any, err error) {
 	query.aggregates = nil
 	query.singletonMut.Unlock()
 	if query.dual {
-		rs, err := ExecSelect(query, query.from)
+		// the document is the one row of the table: WHERE decides about it as
+		// about any other row
+		rows := make([]any, 0, len(query.from))
+		for _, current := range query.from {
+			if row, ok := current.(Map); ok {
+				isMatch, err := ExecWhere(query, row)
+				if err != nil {
+					return nil, err
+				}
+				if !isMatch {
+					continue
+				}
+			}
+			rows = append(rows, current)
+		}
+		rs, err := ExecSelect(query, rows)
 		if err != nil {
 			return nil, err
 		}
